@@ -46,8 +46,11 @@ Definition city16 (a b : N) : N := N.lxor (hash128to64 a (rot64 (m64 (b + 16)) 1
    func getNodeId(parentId, funcId uint64, traceLevel int) uint64 {
        buf := LE(parentId) ++ LE(funcId); if traceLevel > 511 { traceLevel = 511 }
        return city.CH64(buf)>>9 | (uint64(traceLevel) << 55) } *)
+Definition hash_shift : N := 9.
+Definition depth_shift : N := 55.
+Definition depth_clamp : N := 511.
 Definition node_id (h : N -> N -> N) (parent fn depth : N) : N :=
-  N.lor (N.shiftr (m64 (h parent fn)) 9) (N.shiftl (N.min depth 511) 55).
+  N.lor (N.shiftr (m64 (h parent fn)) hash_shift) (N.shiftl (N.min depth depth_clamp) depth_shift).
 
 (* ------------------------------------------------------------------ profiles and stored rows *)
 Record sample := { s_stack : list N;      (* function ids, LEAF FIRST (pprof order) *)
